@@ -764,10 +764,11 @@ impl Service {
                 } else {
                     let before_len = nodes.len();
                     nodes.retain(|enr| {
-                        peer_key
+                        // The responder's own record is at distance 0.
+                        let distance = peer_key
                             .log2_distance(&enr.node_id().into())
-                            .map(|distance| distances_requested.contains(&distance))
-                            .unwrap_or_else(|| false)
+                            .unwrap_or(0);
+                        distances_requested.contains(&distance)
                     });
 
                     if nodes.len() < before_len {
